@@ -4354,6 +4354,39 @@ def r11_13(prog, rep, rid='R11.13'):
             return e.func.value
         return None
 
+    def made_of(e, nid, seen=frozenset()):
+        """'arg': the value of e carries (a part of) the argument; 'self': it
+        carries the path of the URL which was built from the context (the URL
+        under construction: its own path, whatever was appended so far)"""
+        if isinstance(e, ast.Attribute) and e.attr == 'path':
+            kv = kinds(e.value, nid)
+            if kv & {'base', 'ctx'}:
+                return {'self'}
+            if 'url' in kv:
+                return {'arg'}
+        if isinstance(e, ast.Name):
+            if (e.id, nid) in seen:
+                return set()
+            seen = seen | {(e.id, nid)}
+            defs, initial = defs_at(g, e.id, nid)
+            out = {'arg'} if initial and e.id == arg else set()
+            for dn, v in defs:
+                if v is None:
+                    v = getattr(dn.ast, 'value', None)
+                    if isinstance(dn.ast, ast.AugAssign):
+                        out |= made_of(ast.Name(id=e.id, ctx=ast.Load()),
+                                       dn.id, seen)
+                if v is not None:
+                    out |= made_of(v, dn.id, seen)
+            return out
+        out = set()
+        for c in ast.iter_child_nodes(e):
+            if isinstance(c, ast.keyword):
+                out |= made_of(c.value, nid, seen)
+            elif isinstance(c, ast.expr):
+                out |= made_of(c, nid, seen)
+        return out
+
     def dropped(e, nid, seen=frozenset()):
         """[(what loses its trailing slash: 'part' | 'self', call)] among the
         computations the value of e (read at cfg node nid) is made by"""
@@ -4371,10 +4404,10 @@ def r11_13(prog, rep, rid='R11.13'):
             return out
         opd = slash_dropper(e)
         if opd is not None:
-            k = kinds(opd, nid)
-            if k & {'raw', 'url', 'part'}:
+            k = made_of(opd, nid)
+            if 'arg' in k:
                 out.append(('part', e))
-            elif k & {'base', 'ctx'}:
+            elif 'self' in k:
                 out.append(('self', e))
         for c in ast.iter_child_nodes(e):
             if isinstance(c, ast.keyword):
@@ -5123,6 +5156,17 @@ def r11_17(prog, rep, rid='R11.17'):
         for role in ('src', 'tgt'):
             part = 'source' if role == 'src' else 'target'
             if role not in roles:
+                known = {id(c) for v in roles.values() for c, _ in v}
+                for c in calls_in(ev.tree):
+                    if id(c) not in known and \
+                       any(isinstance(a, ast.Name) and a.id in ev.dicts
+                           for a in list(c.args) +
+                           [k.value for k in c.keywords]):
+                        raise AnalysisError(
+                            'UNRECOGNISED-IDIOM %s: a context dict is handed '
+                            'to `%s`, which is not complete_url / '
+                            'expand_staging_directives' % (f.where,
+                                                           short(c, 50)))
                 rep.bad(rid, f, '%s:not completed' % role,
                         'Pilot.%s does not complete the %s of its directives '
                         'with a context: sandbox schemas and relative paths '
@@ -5263,7 +5307,11 @@ def run(prog, rep, tier):
         'the task dict next to it; the per-task worker of each stager runs '
         'under a catch-all handler inside the loop over the tasks which '
         'records the error on that task, fails that task and does not '
-        'raise (R05.4 of C05 re-evaluated).')
+        'raise (R05.4 of C05 re-evaluated); Pilot.stage_in / stage_out '
+        'complete source and target with contexts whose pwd and schema '
+        'entries are the values of the Session getter of the documented '
+        'sandbox; complete_url does not pass the path component of its '
+        'argument through a call which drops a trailing `/`.')
     rep.undecided = ('file contents and remote transfers; that the backend '
         'operations do what their names say (cp/mv/ln semantics, SAGA); '
         'exceptions swallowed inside '
@@ -6366,4 +6414,158 @@ SILENT += [
     dict(name='skip site: client output directives collected by a comprehension (C05-r10 form)', edits=[
         (_TO, "            actionables = list()\n            for sd in task['description'].get('output_staging', []):\n\n                if sd['action'] == rpc.TRANSFER:\n                    actionables.append(sd)\n",
               "            actionables = [sd for sd\n                              in task['description'].get('output_staging', [])\n                              if sd['action'] == rpc.TRANSFER]\n")]),
+]
+
+
+# ------------------------------------------------------------------------------
+# round 6: R11.17 (pilot level staging contexts), R11.18 (trailing slash of the
+# expanded path), dict spreads in context tables (R11.6)
+#
+_P = 'pilot.py'
+_P_IN  = ("            sd['source'] = str(complete_url(sd['source'], self._loc_ctx, self._log))\n"
+          "            sd['target'] = str(complete_url(sd['target'], self._rem_ctx, self._log))\n")
+_P_OUT = ("            sd['source'] = str(complete_url(sd['source'], self._rem_ctx, self._log))\n"
+          "            sd['target'] = str(complete_url(sd['target'], self._loc_ctx, self._log))\n")
+_P_REM = ("        self._rem_ctx = {'pwd'     : self._pilot_sandbox,\n"
+          "                         'client'  : self._client_sandbox,\n"
+          "                         'pilot'   : self._pilot_sandbox,\n"
+          "                         'resource': self._resource_sandbox,\n"
+          "                         'session' : self._session_sandbox,\n"
+          "                         'endpoint': self._endpoint_fs}\n")
+_P_LOC = ("        self._loc_ctx = {'pwd'     : self._client_sandbox,\n"
+          "                         'client'  : self._client_sandbox,\n"
+          "                         'pilot'   : self._pilot_sandbox,\n"
+          "                         'resource': self._resource_sandbox,\n"
+          "                         'session' : self._session_sandbox,\n"
+          "                         'endpoint': self._endpoint_fs}\n")
+_P_GET = "        self._pilot_sandbox    = self._session._get_pilot_sandbox   (pilot)\n"
+_TI_SRC_CTX = ("        src_context = {'pwd'      : task['client_sandbox'],     # !!!\n"
+               "                       'client'   : task['client_sandbox'],\n"
+               "                       'task'     : task['task_sandbox'],\n"
+               "                       'pilot'    : task['pilot_sandbox'],\n"
+               "                       'session'  : task['session_sandbox'],\n"
+               "                       'resource' : task['resource_sandbox'],\n"
+               "                       'endpoint' : task['endpoint_fs']}\n")
+_TI_TGT_CTX = ("        tgt_context = {'pwd'      : task['task_sandbox'],       # !!!\n"
+               "                       'client'   : task['client_sandbox'],\n"
+               "                       'task'     : task['task_sandbox'],\n"
+               "                       'pilot'    : task['pilot_sandbox'],\n"
+               "                       'session'  : task['session_sandbox'],\n"
+               "                       'resource' : task['resource_sandbox'],\n"
+               "                       'endpoint' : task['endpoint_fs']}\n")
+_TI_SHARED = ("        sandboxes   = {'client'   : task['client_sandbox'],\n"
+              "                       'task'     : task['task_sandbox'],\n"
+              "                       'pilot'    : task['%s'],\n"
+              "                       'session'  : task['session_sandbox'],\n"
+              "                       'resource' : task['resource_sandbox'],\n"
+              "                       'endpoint' : task['endpoint_fs']}\n")
+
+MUTATIONS += [
+    # --- R11.17
+    dict(name='R11.17 seed C11-i1: Pilot.stage_out contexts swapped', rules=('R11.17',), edits=[
+        (_P, _P_OUT,
+             "            sd['source'] = str(complete_url(sd['source'], self._loc_ctx, self._log))\n"
+             "            sd['target'] = str(complete_url(sd['target'], self._rem_ctx, self._log))\n")]),
+    dict(name='R11.17 sibling site: Pilot.stage_in completes the target with the local context', rules=('R11.17',), edits=[
+        (_P, _P_IN,
+             "            sd['source'] = str(complete_url(sd['source'], self._loc_ctx, self._log))\n"
+             "            sd['target'] = str(complete_url(sd['target'], self._loc_ctx, self._log))\n")]),
+    dict(name='R11.17 stage_out: one context through a local for both operands', rules=('R11.17',), edits=[
+        (_P, _P_OUT,
+             "            ctx = self._rem_ctx\n"
+             "            sd['source'] = str(complete_url(sd['source'], ctx, self._log))\n"
+             "            sd['target'] = str(complete_url(path=sd['target'], context=ctx, log=self._log))\n")]),
+    dict(name='R11.17 remote context: pwd is the session sandbox', rules=('R11.17',), edits=[
+        (_P, "        self._rem_ctx = {'pwd'     : self._pilot_sandbox,\n",
+             "        self._rem_ctx = {'pwd'     : self._session_sandbox,\n")]),
+    dict(name='R11.17 local context: pilot:// fed by the session sandbox', rules=('R11.17',), edits=[
+        (_P, _P_LOC, _P_LOC.replace("'pilot'   : self._pilot_sandbox", "'pilot'   : self._session_sandbox"))]),
+    dict(name='R11.17 pilot sandbox attribute bound to the result of the session getter', rules=('R11.17',), edits=[
+        (_P, _P_GET, "        self._pilot_sandbox    = self._session._get_session_sandbox (pilot)\n")]),
+    dict(name='R11.17 remote context loses its pwd entry', rules=('R11.17',), edits=[
+        (_P, "        self._rem_ctx = {'pwd'     : self._pilot_sandbox,\n                         'client'",
+             "        self._rem_ctx = {'client'")]),
+    # --- R11.18
+    dict(name='R11.18 seed C11-i5: expanded path through os.path.normpath', rules=('R11.18',), edits=[
+        (SD, _SD_APPEND, "            ret.path = os.path.normpath('%s/%s' % (ret.path, purl.path))\n")]),
+    dict(name='R11.18 path component stripped of slashes', rules=('R11.18',), edits=[
+        (SD, _SD_APPEND, "            ret.path += '/%s' % purl.path.strip('/')\n")]),
+    dict(name='R11.18 path component normalised through a local', rules=('R11.18',), edits=[
+        (SD, _SD_APPEND, "            rel = os.path.normpath(purl.path)\n            ret.path += '/' + rel\n")]),
+    dict(name='R11.18 result normalised after the path was appended', rules=('R11.18',), edits=[
+        (SD, _SD_APPEND, _SD_APPEND + "            ret.path = os.path.abspath(ret.path)\n")]),
+    # --- R11.6 over the merged context tables of C11-r11
+    dict(name='R11.6 C11-r11 form, shared table feeds pilot from the session sandbox', rules=('R11.6',), edits=[
+        (_TI, _TI_SRC_CTX + _TI_TGT_CTX,
+              _TI_SHARED % 'session_sandbox' +
+              "        src_context = {'pwd': task['client_sandbox'], **sandboxes}\n"
+              "        tgt_context = {'pwd': task['task_sandbox'],   **sandboxes}\n")]),
+    dict(name='R11.6 C11-r11 form, spread after pwd overrides nothing but pwd comes from the pilot', rules=('R11.6',), edits=[
+        (_TI, _TI_SRC_CTX + _TI_TGT_CTX,
+              _TI_SHARED % 'pilot_sandbox' +
+              "        src_context = {'pwd': task['client_sandbox'], **sandboxes}\n"
+              "        tgt_context = {**sandboxes, 'pwd': task['pilot_sandbox']}\n")]),
+]
+
+SILENT += [
+    # R11.6 (dict spreads)
+    dict(name='context site: C11-r11 form, shared table spread into both contexts', edits=[
+        (_TI, _TI_SRC_CTX + _TI_TGT_CTX,
+              _TI_SHARED % 'pilot_sandbox' +
+              "        src_context = {'pwd': task['client_sandbox'], **sandboxes}\n"
+              "        tgt_context = {'pwd': task['task_sandbox'],   **sandboxes}\n")]),
+    dict(name='context site: shared table merged by dict(**) and by `|`', edits=[
+        (_TI, _TI_SRC_CTX + _TI_TGT_CTX,
+              _TI_SHARED % 'pilot_sandbox' +
+              "        src_context = dict(pwd=task['client_sandbox'], **sandboxes)\n"
+              "        tgt_context = sandboxes | {'pwd': task['task_sandbox']}\n")]),
+    # R11.17
+    dict(name='pilot staging: contexts hoisted into locals in stage_out', edits=[
+        (_P, _P_OUT,
+             "            src_ctx, tgt_ctx = self._rem_ctx, self._loc_ctx\n"
+             "            sd['source'] = str(complete_url(sd['source'], src_ctx, self._log))\n"
+             "            sd['target'] = str(complete_url(sd['target'], tgt_ctx, self._log))\n")]),
+    dict(name='pilot staging: keyword arguments and reordered statements in stage_in', edits=[
+        (_P, _P_IN,
+             "            sd['target'] = str(complete_url(context=self._rem_ctx, path=sd['target'], log=self._log))\n"
+             "            sd['source'] = str(complete_url(path=sd['source'], context=self._loc_ctx, log=self._log))\n")]),
+    dict(name='pilot staging: contexts built from a shared table (spread / dict())', edits=[
+        (_P, _P_REM + "\n" + _P_LOC,
+             "        sandboxes = {'client'  : self._client_sandbox,\n"
+             "                     'pilot'   : self._pilot_sandbox,\n"
+             "                     'resource': self._resource_sandbox,\n"
+             "                     'session' : self._session_sandbox,\n"
+             "                     'endpoint': self._endpoint_fs}\n"
+             "        self._rem_ctx = {'pwd': self._pilot_sandbox, **sandboxes}\n"
+             "        self._loc_ctx = dict(sandboxes, pwd=self._client_sandbox)\n")]),
+    dict(name='pilot staging: context attributes renamed', edits=[
+        (_P, _P_REM, _P_REM.replace('self._rem_ctx = {', 'self._ctx_a   = {')),
+        (_P, _P_LOC, _P_LOC.replace('self._loc_ctx = {', 'self._ctx_b   = {')),
+        (_P, _P_IN,  _P_IN .replace('_rem_ctx', '_ctx_a').replace('_loc_ctx', '_ctx_b')),
+        (_P, _P_OUT, _P_OUT.replace('_rem_ctx', '_ctx_a').replace('_loc_ctx', '_ctx_b'))]),
+    dict(name='pilot staging: pilot sandbox fetched through a local', edits=[
+        (_P, _P_GET,
+             "        psbox = self._session._get_pilot_sandbox(pilot)\n"
+             "        self._pilot_sandbox    = psbox\n")]),
+    dict(name='pilot staging: item stores instead of a literal for the local context', edits=[
+        (_P, _P_LOC,
+             "        self._loc_ctx = dict(self._rem_ctx)\n"
+             "        self._loc_ctx['pwd'] = self._client_sandbox\n")]),
+    # R11.18
+    dict(name='complete_url: context URL normalised before the path is appended', edits=[
+        (SD, _SD_APPEND, "            ret.path = os.path.normpath(ret.path)\n" + _SD_APPEND)],
+         note='the sandbox directory is the same location with or without `//`'),
+    dict(name='complete_url: normalised base and path component in one expression', edits=[
+        (SD, _SD_APPEND, "            ret.path = os.path.normpath(ret.path) + '/' + purl.path\n")]),
+    dict(name='complete_url: normalised path only in the debug message', edits=[
+        (SD, "                log.debug('   expand with %s', context.get(purl.schema))\n",
+             "                log.debug('   expand with %s -> %s', context.get(purl.schema),\n"
+             "                          os.path.normpath(ret.path))\n")]),
+    dict(name='complete_url: working directory normalised', edits=[
+        (SD, "            ret = ru.Url(os.getcwd())\n", "            ret = ru.Url(os.path.normpath(os.getcwd()))\n")]),
+]
+
+MUTATIONS += [
+    dict(name='R11.17 stage_out no longer completes the target', rules=('R11.17',), edits=[
+        (_P, _P_OUT, "            sd['source'] = str(complete_url(sd['source'], self._rem_ctx, self._log))\n")]),
 ]
